@@ -368,8 +368,17 @@ def harness(no_holes):
             return orig_inv(I_, fr, i)
         loop.inv = inv_capture
         out = sc.run(I, I.getattr(conn, "_process_resend"), [msg])
+        sc.observe(I, conn, out, pre)
         post = sc.eview(I, conn, out)
-        I.ctx.notes.append(("outcome", post.outcome))
+        # replayable models: at most three journal rows, their numbers read from the model
+        c.realism += [z3.Int("nout") <= 100000, z3.Int("nin") <= 100000]  # (SQLite integers are 64 bit)
+        if env.n is not None:
+            seq = seqf()
+            c.realism.append(env.n.t <= 3)
+            for j in range(3):
+                env.use(j)
+            I.ctx.observe["resend"] = {"nrows": env.n, "seqs": [SInt(seq(z3.IntVal(j))) for j in range(3)],
+                                       "exit": I.ctx.ghost.get("loop_exit_index") is not None}
         return final_clauses(env, pre, post, m)
     return h
 
@@ -450,11 +459,121 @@ def mustfail(I):
     return [("never_writes", len(post.W) == len(pre.W))]
 
 
+# ---------------------------------------------------------------------------
+# bridge to the native runner (exit paths: the whole request served on a concrete journal of <= 3 rows)
+# ---------------------------------------------------------------------------
+
+
+def native_case(inputs):
+    ob = (inputs.get("__observed__") or {}).get("resend")
+    case = sc.conn_native_case("process_resend", inputs, mtype="2")
+    rows = []
+    if ob is not None:
+        n = ob["nrows"]
+        if not isinstance(n, int) or n > 3:
+            return None
+        seqs = ob["seqs"][:n]
+        if len(set(seqs)) != len(seqs) or any((not isinstance(k, int)) or k < 1 for k in seqs):
+            return None
+        # default rows: application messages the application agrees to replay
+        rows = [{"seq": k, "type": "D"} for k in seqs]
+    case["rows"] = rows
+    # the journal holds exactly these rows in the requested range; rows elsewhere come from the row queries
+    case["pre"]["out_rows"] = []
+    return case
+
+
+def witness_case(task, cover):
+    if task.name.startswith("_process_resend"):
+        return native_case(cover["inputs"])
+    return None
+
+
+def witness_agrees(task, cover, engine, obs):
+    if "harness_error" in obs:
+        obs["mismatch"] = obs["harness_error"][-300:]
+        return False
+    eo = dict(cover["inputs"].get("__observed__", {}))
+    for k in ("W", "EV", "was_active", "row_queries", "closed", "L_is_zero", "A"):
+        eo.pop(k, None)
+    bad = sc.conn_agrees(eo, obs)
+    if bad:
+        obs["mismatch"] = bad
+    return not bad
+
+
+def replay_case(task, vc):
+    c = native_case(vc["model"])
+    return {"family": "conn", "case": c} if c is not None else None
+
+
+def concrete_clauses(case, obs):
+    """The sentences of the statement on one concrete served request (independent, statement-level oracle)."""
+    pre, post = case["pre"], obs["post"]
+    tags = dict((str(t), v) for t, v in case["msg"]["tags"])
+
+    def num(x):
+        try:
+            return int(x)
+        except (TypeError, ValueError):
+            return None
+    b, e = num(tags.get("7")), num(tags.get("16"))
+    cur = pre["nout"]
+    valid = b is not None and e is not None and 1 <= b < cur
+    rows = {r["seq"]: r for r in case.get("rows", [])}
+    before = obs.get("rows_before", {})
+    cl = []
+    same = (post["nout"] == pre["nout"] and post["J_out"] == pre.get("J_out", pre["nout"] - 1) and post["st"] == pre["st"]
+            and len(post["W"]) == 0 and sorted(post["out_rows"]) == sorted(rows))
+    cl.append(("request.invalid_changes_nothing", valid or same))
+    cl.append(("request.valid_is_served", (not valid) or obs["outcome"] == "ret"))
+    if obs["outcome"] == "ret" and valid:
+        cl.append(("after.next_outbound_number_restored", post["nout"] == pre["nout"]))
+        cl.append(("after.stored_counter_restored", post["J_out"] == pre["nout"] - 1))
+        cl.append(("after.state_restored", post["st"] == pre["st"]))
+        cl.append(("after.rows_below_begin_untouched", sorted(k for k in post["out_rows"] if k < b) == sorted(k for k in rows if k < b)))
+        cl.append(("after.no_row_at_or_above_counter", all(k < post["nout"] for k in post["out_rows"])))
+        last = min(e, cur - 1) if e != 0 else cur - 1
+        for k, r in rows.items():
+            if not (b <= k <= last):
+                continue
+            fr = [f for f in post["W"] if str(f.get("seq")) == str(k) and f.get("type") != "4"]
+            is_sess = r.get("type", "D") in SESSION_TYPES
+            if is_sess or r.get("declined"):
+                cl.append(("loop.iteration.session_or_declined_not_retransmitted", len(fr) == 0))
+            else:
+                cl.append(("loop.iteration.accepted_application_row_retransmitted_once", len(fr) == 1))
+                if len(fr) == 1:
+                    t = fr[0].get("tags", {})
+                    orig = before.get(str(k), {})
+                    cl.append(("loop.iteration.retransmit.possdup", t.get("43") == "Y"))
+                    want = orig.get("122") or orig.get("52")
+                    cl.append(("loop.iteration.retransmit.orig_sending_time", t.get("122") == want))
+                    cl.append(("loop.iteration.retransmit.type_kept", fr[0].get("type") == orig.get("type")))
+        for f in post["W"]:
+            if f.get("type") == "4":
+                t = f.get("tags", {})
+                cl.append(("loop.iteration.gapfill.is_sequence_reset_gapfill", t.get("123") == "Y"))
+                cl.append(("loop.iteration.gapfill.forward", num(t.get("36")) is not None and num(t.get("36")) > num(f.get("seq"))))
+        cl.append(("loop.iteration.no_new_number", all(f.get("possdup") == "Y" or f.get("type") == "4" for f in post["W"])))
+    return cl
+
+
+def violates(rp, obs):
+    if "harness_error" in obs:
+        return False
+    name = rp["obligation"].split(".", 1)[1]
+    for n, c in concrete_clauses(rp["native_case"], obs):
+        if n == name and c is False:
+            return True
+    return False
+
+
 FUNCS = [CONN + "._process_resend", CONN + ".send_msg", CONN + "._state_set"]
 
 TASKS = [
-    Task("_process_resend", harness(False), resend_cfg(None, False), FUNCS, timeout_ms=20000),
-    Task("_process_resend[no_holes]", harness(True), resend_cfg(None, True), FUNCS, timeout_ms=20000),
+    Task("_process_resend", harness(False), resend_cfg(None, False), FUNCS, timeout_ms=20000, native="conn"),
+    Task("_process_resend[no_holes]", harness(True), resend_cfg(None, True), FUNCS, timeout_ms=20000, native="conn"),
     Task("mustfail", mustfail, resend_cfg(None, False), [], expect_refuted=True),
 ]
 
